@@ -25,6 +25,13 @@ def category(field: str) -> str:
     return "other"
 
 
+def sig_for(prop: str, default: str, problem: str) -> str:
+    """One signature per mechanism where the difference itself names one (so that a listed finding covers that mechanism and nothing else)."""
+    if problem.startswith(dlms_gen.TRAILING_NUL):
+        return f"{prop}:text:{dlms_gen.TRAILING_NUL}"
+    return default
+
+
 def decode_both(vendor: str, case):
     mod = importlib.import_module(f"han.{vendor}")
     out = {}
@@ -50,7 +57,7 @@ def check_case(prop: str, case, ctx, extra_tag: str = "") -> bool:
             continue
         for fld, problem in dlms_gen.compare_dict(got, expect):
             kind = "missing-key" if problem == "missing" else "unexpected-key" if problem.startswith("unexpected") else "value"
-            ctx.violation(f"{prop}:{form}:{kind}:{category(fld)}{extra_tag}", f"{case.vendor} {case.layout} {form}: {fld}: {problem}", wit)
+            ctx.violation(sig_for(prop, f"{prop}:{form}:{kind}:{category(fld)}{extra_tag}", problem), f"{case.vendor} {case.layout} {form}: {fld}: {problem}", wit)
             ok = False
         ctx.count(f"fields_compared_{form}", len(expect))
     # decoding is a function of the octets: wreck the dictionaries that were returned, decode the same octets again, compare again
@@ -64,7 +71,7 @@ def check_case(prop: str, case, ctx, extra_tag: str = "") -> bool:
         got, ex = res2[form]
         if ex is None and res[form][1] is None:
             for fld, problem in dlms_gen.compare_dict(got, expect):
-                ctx.violation(f"{prop}:{form}:second-decode-differs", f"{case.vendor} {case.layout} {form}: decoding the same octets again after the caller changed the first result: {fld}: {problem}", wit)
+                ctx.violation(sig_for(prop, f"{prop}:{form}:second-decode-differs", problem), f"{case.vendor} {case.layout} {form}: decoding the same octets again after the caller changed the first result: {fld}: {problem}", wit)
                 ok = False
                 break
     res = res2
@@ -83,7 +90,7 @@ def check_case(prop: str, case, ctx, extra_tag: str = "") -> bool:
             ctx.count("two_step_normalisations")
             for label, got, expect in (("first", first, case.expect_frame), ("second", second, case.expect_frame), ("body-of-frame", inner, case.expect_body)):
                 for fld, problem in dlms_gen.compare_dict(got, expect):
-                    ctx.violation(f"{prop}:two-step:{label}-normalisation-differs", f"{case.vendor} {case.layout}: normalising the parsed object ({label}): {fld}: {problem}", wit)
+                    ctx.violation(sig_for(prop, f"{prop}:two-step:{label}-normalisation-differs", problem), f"{case.vendor} {case.layout}: normalising the parsed object ({label}): {fld}: {problem}", wit)
                     ok = False
                     break
     # frame vs body on every field except the clock
@@ -159,4 +166,4 @@ def run_threads(prop: str, gen, ctx, n_threads: int = 4, n_cases: int = 60) -> N
     ctx.case(f"{prop}threads", True, n_threads * n_cases)
     for form, msg, case in problems[:3]:
         wit = {"vendor": case.vendor, "layout": case.layout, "body": case.body, "frame": case.frame, "expect_body": _plain(case.expect_body), "expect_frame": _plain(case.expect_frame), "threads": True}
-        ctx.violation(f"{prop}:{form}:differs-under-concurrent-threads", f"{case.vendor} {case.layout} {form} decoded in {n_threads} threads at once: {msg} (the same octets decode correctly in one thread)", wit)
+        ctx.violation(sig_for(prop, f"{prop}:{form}:differs-under-concurrent-threads", msg.split(": ", 1)[-1]), f"{case.vendor} {case.layout} {form} decoded in {n_threads} threads at once: {msg} (the same octets decode correctly in one thread)", wit)
